@@ -182,6 +182,18 @@ class FuncVerifier(object):
             except (MissingSnapshot, UnknownName) if h[0] in ('assert_from', 'assert_using') and len(h) > 4 and h[4] == 'optional' else MissingSnapshot:
                 continue      # the hint refers to a program point this path did not pass: not applicable here
 
+    def has_spec_app(self, e, _seen=None):
+        """does the term mention a spec function?  (such facts must be listed explicitly in a by-clause)"""
+        if _seen is None:
+            _seen = {}
+            self._spec_ids = {d.get_id() for d in self.lib.theory.decls.values()}
+        i = e.get_id()
+        if i in _seen:
+            return _seen[i]
+        r = (z3.is_app(e) and e.decl().get_id() in self._spec_ids) or any(self.has_spec_app(c, _seen) for c in e.children())
+        _seen[i] = r
+        return r
+
     def apply_one_hint(self, st, h, hi_, site, extra):
         for _once in (0,):
             kind = h[0]
@@ -194,11 +206,18 @@ class FuncVerifier(object):
                 sp = self.spec(st, extra=extra)
                 facts = []
                 for fi, fx in enumerate(h[2]):
+                    if isinstance(fx, tuple):
+                        # a lemma instance as a fact: its requires are proved in the full context, its ensures join the facts
+                        scratch = st.copy()
+                        n0 = len(scratch.pc)
+                        self.apply_one_hint(scratch, fx, fi, '%s.hint%d.fact' % (site, hi_), extra)
+                        facts.extend(scratch.pc[n0:])
+                        continue
                     fz = sp.ev_bool(fx)
                     self.oblige(st, '%s.hint%d.fact%d' % (site, hi_, fi), fz, note=fx)
                     facts.append(fz)
                 g = sp.ev_bool(h[1])
-                light = [x for x in st.pc if not has_quantifier(x)]
+                light = [x for x in st.pc if not has_quantifier(x) and not self.has_spec_app(x)]
                 oid = '%s::%s.hint%d.assert' % (self.c.key, site, hi_)
                 cases = [sp.ev_bool(c) for c in (h[3] if len(h) > 3 else [])]
                 if cases:
@@ -1602,6 +1621,27 @@ def lemma_vcs(lib, lem):
                 g = sp_.ev_bool(h[1])
                 vcs.append(VC('%s::%s.hint%d.assert' % (key, tag, hi_), out, g))
                 out.append(g)
+            elif h[0] == 'lemma?':
+                other = lib.lemmas[h[1]]
+                a = [sp_.ev_str(x) for x in h[2]]
+                p_, q_ = instantiate_lemma(lib, other, a)
+                out.append(z3.Implies(z3.And(*p_) if p_ else z3.BoolVal(True), z3.And(*q_)))
+            elif h[0] == 'forall_lemma':
+                _, binders, name, argexprs = h
+                other = lib.lemmas[name]
+                kvs, rngs = [], []
+                for (k, lo, hi) in binders:
+                    lo_v, hi_v = as_num(sp_.ev_str(lo)), as_num(sp_.ev_str(hi))
+                    kv = fresh(k, I)
+                    sp_.bound[k] = kv
+                    kvs.append(kv)
+                    rngs += [lo_v <= kv, kv < hi_v]
+                a = [sp_.ev_str(x) for x in argexprs]
+                p_, q_ = instantiate_lemma(lib, other, a)
+                rng = z3.And(*rngs)
+                if p_:
+                    vcs.append(VC('%s::%s.hint%d.%s.pre' % (key, tag, hi_, other.name), out, z3.ForAll(kvs, z3.Implies(rng, z3.And(*p_)))))
+                out.append(z3.ForAll(kvs, z3.Implies(rng, z3.And(*q_))))
             else:
                 raise ContractError('hint kind in lemma')
         return out
